@@ -556,7 +556,11 @@ impl<'a> JoinOutput<'a> {
                     })
                     .collect();
 
-                if !results.is_empty() {
+                //
+                // Only `async` re-wraps the values of finished branches into `Ok` between steps; in the sync
+                // non-transposing case they are already unwrapped, so there is nothing left to transpose.
+                //
+                if !results.is_empty() && is_async {
                     let transposer = self.generate_results_transposer(&results, &result_vars);
 
                     quote! {
